@@ -1015,7 +1015,7 @@ def observe(sim, what, obs):
     for (s, f) in sim._srcfreq:
         e = sim.get_efield(s, f)
         out[f"efield[{s}][{f}]"] = _bytes(e.field)
-        out[f"efield.freq[{s}][{f}]"] = repr(e.frequency)
+        out[f"efield.freq[{s}][{f}]"] = repr(complex(e.frequency))
         info = sim.get_efield_info(s, f)
         out[f"info[{s}][{f}]"] = repr([_canon(info[k]) for k in INFO_KEYS]
                                       + [_bytes(np.asarray(info['error_at_cycle'], float))])
